@@ -2,7 +2,7 @@
 From Coq Require Import List ZArith NArith Bool Lia.
 From Coq.Strings Require Import Byte.
 Import ListNotations.
-From SV Require Import Text C01_Lines G_codes G_c01_io C01_Model C01_Lemmas C01_Formats C01_Stockholm C01_Domain.
+From SV Require Import Text C01_Lines G_codes G_c01_io C01_Model C01_Lemmas C01_Formats C01_Stockholm C01_Domain C01_Gff.
 
 Definition norm_of (f : fmt) : bseq -> bseq :=
   match f with Fasta | Gff => norm_fasta f | _ => norm_plain f end.
@@ -47,3 +47,21 @@ Theorem fasta_append_main b1 b2 :
   bind (write_w Fasta b1) (fun c1 => write_file Fasta true c1 b2) = write_w Fasta (b1 ++ b2)
   /\ write_dispatch Fasta true false b2 = Ok (CText (concat (map append_fasta b2))).
 Proof. exact (fasta_append b1 b2). Qed.
+
+(* GFF baskets that carry plain features (harness-level domain) *)
+Theorem gff_fts_roundtrip_all xs fts : wf_basket Gff xs = true -> forallb wf_gft fts = true ->
+  exists t o, write_w_fts Gff fts (build xs) = Ok t /\ read_content Gff t = Ok o
+    /\ length o = length xs
+    /\ map b_id o = map (fun x => fst (fst x)) xs
+    /\ map b_data o = map (fun x => upper (snd (fst x))) xs
+    /\ write_w_fts Gff fts o = Ok t.
+Proof.
+  intros H Hf. destruct (domain_bridge Gff xs H) as [Hb _]. cbn [wfb_basket] in Hb.
+  destruct (gff_fts_roundtrip fts (build xs) Hf Hb) as (t & H1 & H2 & H3).
+  destruct (norm_of_obs Gff (build xs)) as (L & I & D). cbn [norm_of] in L, I, D.
+  exists t, (map (norm_fasta Gff) (build xs)). split; [exact H1|]. split; [exact H2|].
+  split; [rewrite L; unfold build; apply map_length|].
+  split; [rewrite I; unfold build; rewrite map_map; apply map_ext; intros x; apply build_id|].
+  split; [rewrite D; unfold build; rewrite map_map; apply map_ext; intros x; apply build_data|].
+  exact H3.
+Qed.
